@@ -91,3 +91,25 @@ Theorem ring_refines_fifo_refuted_pre_fix :
   C18_check old_witness = false /\ returned old_witness = [0;1;2;3;4;4;5;6].
 Proof. exact ring_refines_fifo_refuted_before_fix. Qed.
 Print Assumptions ring_refines_fifo_refuted_pre_fix.
+
+(* Single-producer/single-consumer separation, for ANY state (reachable or not): reader-side calls leave the
+   write pointer, the capacity and every byte of the shared memory untouched ... *)
+Theorem reader_calls_never_touch_writer_side :
+  forall ops s, Forall reader_op ops ->
+    wp (fst (run s ops)) = wp s /\ cap (fst (run s ops)) = cap s /\ mem (fst (run s ops)) = mem s.
+Proof. exact reader_never_touches_writer_side. Qed.
+Print Assumptions reader_calls_never_touch_writer_side.
+
+(* ... and Write leaves the read pointer and the capacity untouched. *)
+Theorem write_never_touches_reader_side :
+  forall s d, rp (fst (write s d)) = rp s /\ cap (fst (write s d)) = cap s.
+Proof. exact writer_never_touches_reader_side. Qed.
+Print Assumptions write_never_touches_reader_side.
+
+(* Loss-freedom at the memory level: a write (of any length, wrapping or not) never alters a cell that still
+   holds an unread byte. *)
+Theorem write_never_overwrites_unread_bytes :
+  forall s A d, GInv s A ->
+    forall i, rp s <= i < wp s -> mem (fst (write s d)) (i mod cap s) = mem s (i mod cap s).
+Proof. exact write_preserves_unread. Qed.
+Print Assumptions write_never_overwrites_unread_bytes.
